@@ -95,6 +95,10 @@ def run(ctx):
     r3.check(table == want, ccon + "::failure-test", "raises BackendError iff the exit status is non-zero or 'error:' appears on stderr; otherwise returns stdout",
              f"call() over (exit!=0, 'error:' on stderr) gives {table}; a failing scheduler command must raise BackendError for each failure kind and a succeeding one "
              "must hand back its stdout (a rejected submission would otherwise be recorded as accepted)", call_f.where)
+    from .schedmodel import cluster_witness
+    report_witness(r3, "src/gwf/backends::<X>Ops.submit_target::scheduler-model", "src/gwf/backends/slurm.py:1", cached_witness(ctx, "cluster", cluster_witness),
+                   "a submission the scheduler refuses (unknown prerequisite, answer without a job id) raises; the id handed back is the id of the job the scheduler created",
+                   select=lambda d: d.startswith("[refuse]") or "hands back" in d)
     # who may use subprocess
     allowed = {"gwf.backends.utils:call", "gwf.workflow:Workflow.shell"}
     n_sites = 0
